@@ -67,6 +67,19 @@ impl Distribution {
         f64::from_bits(payload << 8)
     }
 
+    /// Packs a tag (u8) and a `usize` payload into a single u64.
+    /// The payload must fit the 56 bits below the tag byte: larger values would be read back as another variant.
+    #[inline]
+    fn pack_usize(tag: u8, v: usize) -> Result<u64> {
+        if (v as u64) >> 56 != 0 {
+            return Err(std::io::Error::new(
+                std::io::ErrorKind::InvalidInput,
+                format!("Distribution payload {v} does not fit in 56 bits"),
+            ));
+        }
+        Ok((tag as u64) << 56 | (v as u64))
+    }
+
     /// Serialises this distribution as a single little-endian `u64` word.
     ///
     /// The top byte carries a variant tag; the lower 56 bits carry either
@@ -74,11 +87,11 @@ impl Distribution {
     /// (for probabilistic variants).
     pub fn write_to<W: Write>(&self, writer: &mut W) -> Result<()> {
         let word: u64 = match self {
-            Distribution::TernaryFixed(v) => (TAG_TERNARY_FIXED as u64) << 56 | (*v as u64),
+            Distribution::TernaryFixed(v) => Self::pack_usize(TAG_TERNARY_FIXED, *v)?,
             Distribution::TernaryProb(p) => Self::pack_f64(TAG_TERNARY_PROB, *p),
-            Distribution::BinaryFixed(v) => (TAG_BINARY_FIXED as u64) << 56 | (*v as u64),
+            Distribution::BinaryFixed(v) => Self::pack_usize(TAG_BINARY_FIXED, *v)?,
             Distribution::BinaryProb(p) => Self::pack_f64(TAG_BINARY_PROB, *p),
-            Distribution::BinaryBlock(v) => (TAG_BINARY_BLOCK as u64) << 56 | (*v as u64),
+            Distribution::BinaryBlock(v) => Self::pack_usize(TAG_BINARY_BLOCK, *v)?,
             Distribution::ZERO => (TAG_ZERO as u64) << 56,
             Distribution::NONE => (TAG_NONE as u64) << 56,
         };
